@@ -203,7 +203,7 @@ def meta_key(aid):
 class World:
     """chunks c0..c(NC-1) stored; artifacts = list of chunk-index lists"""
 
-    def __init__(self, st, arts):
+    def __init__(self, st, arts, pending=()):
         self.cid = [z3.BitVec(f'content{i}', 64) for i in range(NC)]
         self.aid = [z3.BitVec(f'artifact{j}', 64) for j in range(len(arts))]
         for a, b in itertools.combinations(self.cid, 2):
@@ -215,7 +215,7 @@ class World:
         keys, vals = [], []
         self.refs0 = []
         for i in range(NC):
-            cnt = sum(l.count(i) for l in arts)
+            cnt = sum(l.count(i) for l in arts) + list(pending).count(i)
             r = z3.BitVec(f'refs{i}', 64)
             st.assume(r == U64(cnt))        # invariant R in the pre-state
             self.refs0.append(cnt)
@@ -288,24 +288,26 @@ ck.declare('R3_concurrent_count_updates_keep_both', 'A, B in {store_chunk of exi
            'both Ok => every count equals the number of references at quiescence')
 n_store = n_del = 0
 for arts in ART_SETS:
-    # ---- R1
-    st = ex.new_state()
-    Wd = World(st, arts)
-    w = writer(st)
-    ch, hid = new_chunk(st, 'newchunk')
-    res = run(st, 'BlobWriter::store_chunk', [ref(w), ch])
-    ck.note_path_problem(res, f'store_chunk arts={arts}')
-    for r in res:
-        wit = lambda m, Wd=Wd, arts=arts: {'blob_op': 'store_chunk', 'artifacts': arts, 'content_equals': [i for i in range(NC) if mval(m, Wd.cid[i]) == mval(m, hid)]}
-        if r.status == 'panic':
-            ck.require(ex, 'R1_store_chunk_counts_the_reference', r.pc, None, z3.BoolVal(False), wit, lambda m, w_: 'store-chunk-panic')
-            continue
-        if r.status != 'return' or r.retval.variant != 'Ok':
-            continue
-        n_store += 1
-        chunks, al = read_state(r.st)
-        pend = pending_of(r.st)
-        ck.require(ex, 'R1_store_chunk_counts_the_reference', r.pc, None, z3.And(refs_match(chunks, al, pend), z3.BoolVal(len(pend) == 1), pend[0] == hid if pend else z3.BoolVal(False)), wit, lambda m, w_: 'store-chunk-count')
+    # ---- R1: the writer has stored nothing yet, or has already stored chunk 0 (a chunk repeating inside one artifact)
+    for already in ([], [0]):
+        st = ex.new_state()
+        Wd = World(st, arts, pending=already)
+        w = writer(st)
+        w.fields[F('BlobWriter', 'chunks')] = Seq('std::string::String', [Wd.ckeys[i] for i in already])
+        ch, hid = new_chunk(st, 'newchunk')
+        res = run(st, 'BlobWriter::store_chunk', [ref(w), ch])
+        ck.note_path_problem(res, f'store_chunk arts={arts} already={already}')
+        for r in res:
+            wit = lambda m, Wd=Wd, arts=arts, already=already: {'blob_op': 'store_chunk', 'artifacts': arts, 'writer_already_stored': already, 'content_equals': [i for i in range(NC) if mval(m, Wd.cid[i]) == mval(m, hid)]}
+            if r.status == 'panic':
+                ck.require(ex, 'R1_store_chunk_counts_the_reference', r.pc, None, z3.BoolVal(False), wit, lambda m, w_: 'store-chunk-panic')
+                continue
+            if r.status != 'return' or r.retval.variant != 'Ok':
+                continue
+            n_store += 1
+            chunks, al = read_state(r.st)
+            pend = pending_of(r.st)
+            ck.require(ex, 'R1_store_chunk_counts_the_reference', r.pc, None, z3.And(refs_match(chunks, al, pend), z3.BoolVal(len(pend) == len(already) + 1), pend[-1] == hid if pend else z3.BoolVal(False)), wit, lambda m, w_: 'store-chunk-count')
     # ---- R2
     st = ex.new_state()
     Wd = World(st, arts)
